@@ -131,8 +131,8 @@ V("C01-validate-skips-_validate", "C01", "Field.validate skips the subclass hook
   "        value = self._validate(cfg, value)\n        if self.validator:", "        if self.validator:",
   expect_rule="validate.chain @ Field.validate")
 V("C01-setdefault-swapped", "C01", "DictProxy.setdefault swaps validated key and value", DICT,
-  "        key, value = self._validate(key, value)\n        super().setdefault(key, value)",
-  "        value, key = self._validate(key, value)\n        super().setdefault(key, value)",
+  "        key, value = self._validate(key, value)\n        return super().setdefault(key, value)",
+  "        value, key = self._validate(key, value)\n        return super().setdefault(key, value)",
   expect_rule="taint @ DictProxy.setdefault")
 V("C01-insert-deleted", "C01", "ListProxy.insert override deleted (inherits list.insert)", LIST,
   "    def insert(self, index: int, item: Any) -> None:\n        super().insert(index, self._validate(item))\n",
